@@ -111,6 +111,7 @@ type VC struct {
 	instantiating bool
 	bound    []string // names of quantifier-bound variables currently in scope
 	skR, skI string   // skolem constants of the frame obligations
+	valDecisions map[string]int64 // forced values of split expressions (loop-level case splits)
 	decisions map[string]bool // forced truth values of opaque predicates (VC-level case split)
 	entry    *State
 }
